@@ -1634,7 +1634,15 @@ func (p *Parser) parseAsyncExpression(prec OpPrec, async []byte) IExpr {
 			p.fail("arrow function")
 			return nil
 		} else if p.tt == OpenParenToken {
-			return p.parseParenthesizedExpression(prec, async)
+			// not reached through parseExpression when nested as async(async(..., count the nesting here
+			p.exprLevel++
+			if NestedExprLimit < p.exprLevel {
+				p.failMessage("too many nested expressions")
+				return nil
+			}
+			suffix := p.parseParenthesizedExpression(prec, async)
+			p.exprLevel--
+			return suffix
 		}
 		left = p.parseAsyncArrowFunc()
 		precLeft = OpAssign
